@@ -173,10 +173,10 @@ func (g *Gen) totalCall() Ev {
 }
 
 // a pure call on shared operands for the concurrent phase (no SetMode, nothing that writes shared state)
-func (g *Gen) sharedCall(pool []d128.Decimal) Ev {
+func (g *Gen) sharedCall(pool []d128.Decimal, kinds []int) Ev {
 	x, y := pool[g.r.Intn(len(pool))], pool[g.r.Intn(len(pool))]
 	var e Ev
-	switch g.r.Intn(14) {
+	switch kinds[g.r.Intn(len(kinds))] {
 	case 0, 1, 2:
 		e = Ev{"op": []string{"Add", "Sub", "Mul", "Quo", "QuoRem"}[g.r.Intn(5)], "wm": g.r.Intn(2) == 0, "m": g.r.Intn(6)}
 		e.setDec("x", x)
@@ -232,10 +232,16 @@ func (g *Gen) concurrent(G, ncalls int) {
 			pool[i] = randSpecial(g.r)
 		}
 	}
+	// each batch concentrates on two or three kinds of call (with different arguments), so that state shared inside
+	// one entry point -- a cache, a scratch buffer -- is hit by different arguments at the same time
+	kinds := []int{g.r.Intn(14), g.r.Intn(14)}
+	if g.r.Intn(2) == 0 {
+		kinds = append(kinds, g.r.Intn(14))
+	}
 	calls := make([]Ev, ncalls)
 	seq := make([]map[string]any, ncalls)
 	for i := range calls {
-		calls[i] = g.sharedCall(pool)
+		calls[i] = g.sharedCall(pool, kinds)
 		c := cloneEv(calls[i])
 		exec(c)
 		seq[i] = outputsOf(calls[i], c)
